@@ -26,9 +26,21 @@ CLAIM = dict(
          "of C09, every rank, every Transform pair); the symmetrised stacked table carries f at every entry and "
          "reaches every grid point; TABresult.to_grid gives the grid point of cell c the index c, every index is in range, "
          "whatever gets index c is that grid point modulo the reciprocal lattice, and cells filled with equal values "
-         "average to that value.  PARTIAL by design: equivariance of each calculator's per-k value (C08 parities, C09 "
-         "tensor action, proper-rotation covariance of the formulas) is a hypothesis; the oracle tests it on the real "
-         "calculators by comparing run(use_irred_kpt=True, symmetrize=True) with run(use_irred_kpt=False, "
+         "average to that value; the index map of an anisotropic division grid is n'_j = sum_i n_i M_ij div_j/div_i "
+         "(integral iff symmetric_grid) and dropping the ratio merges inequivalent points (oblique example).  With the "
+         "C06 model: the K-list of get_K_list with its own factors (retained points pairwise different, |star|/N, orbit "
+         "cover) satisfies the partition hypothesis, so its weighted symmetrised sum is the grid average "
+         "(irred_equals_full_with_C06_weights; interface hypothesis: C06's star of a grid index = orbit under the action, "
+         "compared on every group/grid used).  Rotation covariance: every well-formed Cartesian tensor expression (tensor "
+         "product, sum, integer multiple, delta- and epsilon-contraction, index transposition, k-derivative) over "
+         "equivariant atoms is equivariant with the structurally computed grade (rank, axial, TR-odd), in the convention "
+         "of transform_tensor: transformInv = (-1)^(rank+axial), transformTR = (-1)^trOdd, with the curried rotation "
+         "proved equal to the model's rotate; 42 structure terms (static calculators and tabulators) are kernel-checked "
+         "against the rank and declared transforms of the live calculators on every run.  STILL PARTIAL: equivariance "
+         "of the atoms (E, Omega, morb, spin, metric at g.k vs k for a symmetric system) and the chain rule for the "
+         "k-derivative are hypotheses; structure terms are hand transcriptions (index order not transcribed); "
+         "OpticalConductivity / ShiftCurrent / InjectionCurrent / SHC / SDCT (transposing TR transforms, sums over "
+         "intermediate states) have no structure term. The oracle tests the whole hypothesis on the real calculators by comparing run(use_irred_kpt=True, symmetrize=True) with run(use_irred_kpt=False, "
          "symmetrize=False) - the reference is NOT symmetrised.",
     note="Trusted: Lean kernel + Mathlib; the harness incl. its own group-averaging construction of symmetric models "
          "(validated on every model with System.check_symmetry and an independent eigenvalue test); irreducible weights "
@@ -44,6 +56,9 @@ TRUSTED = [
     "Sum_K factor_K * symmetrize(result_K)",
     "hypotheses of the theorems, checked not proved: the K-list weights are |orbit|/N and the orbits partition the grid "
     "(C06); every calculator's per-k value is equivariant under the declared group (oracle)",
+    "structure terms of WB/Lemmas/C07Terms.lean are a hand transcription of the formula classes (atoms E, delta, Omega, "
+    "morb, spin, metric; products / sums / epsilon contractions as in formula/covariant.py and calculators/static.py); a "
+    "transcription error or a changed declaration shows up as a failed kernel check of the regenerated table",
     "not modelled (oracle only): Data_K / calculators / formulas, TABresult.find_grid, adaptive refinement "
     "(KpointBZparallel.divide, exclude_equiv_points), parallel execution",
     "the symmetric test models are built by the harness (explicit group average of a random Hermitian real-space "
@@ -792,14 +807,96 @@ def oracle(ctx, scale):
     oracle_known_finding(ctx)
 
 
+
+# ------------------------------------------------------------------------------------------------
+# regenerated table: structure terms (Lean) vs the live calculators' rank and declared transforms
+
+STATIC_TERMS = ["DOS", "CumDOS", "Spin", "Morb", "GME_orb_FermiSurf", "GME_orb_FermiSea", "GME_spin_FermiSea",
+                "GME_spin_FermiSurf", "AHC", "Ohmic_FermiSea", "Ohmic_FermiSurf", "Hall_classic_FermiSea",
+                "Hall_classic_FermiSurf", "BerryDipole_FermiSurf", "BerryDipole_FermiSea", "NLAHC_FermiSurf",
+                "NLAHC_FermiSea", "NLDrude_FermiSea", "NLDrude_FermiSurf", "NLDrude_Fermider2", "AHC_Zeeman_spin",
+                "OmegaOmega", "AHC_Zeeman_orb", "QuantumMetric_FermiSea", "QuantumMetric_Vel_DQ", "NLDrude_Zeeman_spin",
+                "NLDrude_Zeeman_orb", "NLDrude_Zeeman_orb_Omega", "eMChA_FermiSurf"]
+TAB_TERMS = ["Energy", "Velocity", "InvMass", "Der3E", "BerryCurvature", "DerBerryCurvature", "Der2BerryCurvature",
+             "Spin", "DerSpin", "Der2Spin", "OrbitalMoment", "DerOrbitalMoment", "Der2OrbitalMoment"]
+NEEDS_INTERNAL = ("QuantumMetric_FermiSea", "QuantumMetric_Vel_DQ")      # external terms need the FF matrix
+
+
+def tables(ctx):
+    """Every structure term of WB/Lemmas/C07Terms.lean predicts (rank, transformInv odd, transformTR odd); the live
+    calculators are instantiated on a small random system (all matrices) and their rank and declared transforms read
+    from the result objects; the equalities are then checked by the Lean kernel (`decide`) in a generated file."""
+    import wannierberri as wb
+    from wannierberri import calculators as calc
+    from .. import wbsys
+    rs = np.random.RandomState(12345)
+    Ef = np.linspace(-0.5, 0.5, 3)
+    live = {}
+    with quiet():
+        s = wbsys.rand_system(rs, num_wann=2, nR=5, matrices=("Ham", "AA", "BB", "CC", "SS"))
+        grid = wb.Grid(s, NKdiv=1, NKFFT=2)
+        cs = {}
+        for n in STATIC_TERMS:
+            kw = dict(kwargs_formula={"external_terms": False}) if n in NEEDS_INTERNAL else {}
+            cs[n] = getattr(calc.static, n)(Efermi=Ef, save_mode="", **kw)
+        cs["tabulate"] = calc.TabulatorAll({n: getattr(calc.tabulate, n)() for n in TAB_TERMS}, mode="grid", save_mode="")
+        res = wb.run(s, grid, cs, use_irred_kpt=False, symmetrize=False, parallel=False, print_progress_step_time=1e9)
+    for n in STATIC_TERMS:
+        live["Term." + n] = res.results[n]
+    for n in TAB_TERMS:
+        live["Term.tab" + n] = res.results["tabulate"].results[n]
+    lines = ["import WB.Model.C07", "open WB.C07"]
+    declared = {}
+    for term, r in live.items():
+        tT, tI = r.transformTR, r.transformInv
+        plain = all(t is not None and not t.conj and t.transpose_axes is None and getattr(t, "swap_axes", None) is None
+                    for t in (tT, tI))
+        if not plain:
+            ctx.mismatch(f"{term}: the live calculator declares a transform with conjugation / transposition; the grade "
+                         f"calculus only predicts factors", dict(term=term, TR=str(tT), Inv=str(tI)))
+            continue
+        declared[term] = (int(r.rank), tI.factor == -1, tT.factor == -1)
+        b = lambda x: "true" if x else "false"
+        lines.append(f"example : {term}.grade = ({int(r.rank)}, {b(tI.factor == -1)}, {b(tT.factor == -1)}, true) := by decide")
+        lines.append(f'#eval ("{term}", {term}.grade)')
+    ok, out = ctx.lean_file("GenC07Terms.lean", "\n".join(lines) + "\n")
+    ctx.count("tables.structure_terms", len(declared))
+    ctx.corr_cases += len(declared)
+    if not ok:
+        import re
+        pred = dict(re.findall(r'\("(Term\.\w+)", (\d+, \w+, \w+, \w+)\)', out))
+        bad = [t for t, d in declared.items()
+               if pred.get(t) != f"{d[0]}, {str(d[1]).lower()}, {str(d[2]).lower()}, true"]
+        for t in bad or ["?"]:
+            ctx.mismatch(f"structure term {t}: predicted (rank, Inv odd, TR odd, wf) = ({pred.get(t)}), live calculator "
+                         f"declares {declared.get(t)}", dict(term=t, lean_output=out[-600:] if not bad else ""))
+    ctx.sample(dict(structure_terms_checked=len(declared), example=lines[2] if len(lines) > 2 else ""))
+
+
 # ------------------------------------------------------------------------------------------------
 # correspondence: model vs code
+
+def c06_sym_token(fam, grp_elems):
+    """the group in the wire format of the C06 model: unsigned reduced matrix of the proper part (k' = k @ M * sign),
+    inv, tr"""
+    from ..common import intss
+    B = fam.basis_recip
+    Binv = finv(B)
+    rows = []
+    for (Q, inv, tr) in grp_elems:
+        M = fmul(fmul(B, ftrans(fmat(Q))), Binv)
+        assert all(x.denominator == 1 for r in M for x in r)
+        rows.append([int(x) for r in M for x in r] + [int(inv), int(tr)])
+    return intss(rows)
+
 
 def corr(ctx):
     from wannierberri.result import TABresult, KBandResult, EnergyResult
     from wannierberri.symmetry.point_symmetry import transform_ident
+    from . import c06
     rng = ctx.rng
     lines, checks = [], []
+    c06_lines, c06_checks = [], []
     # --- TABresult.to_grid: k_map, averages, grid points
     for _ in range(ctx.n(40, 300)):
         g = [rng.choice([1, 2, 3, 4]) for _ in range(3)]
@@ -918,6 +1015,21 @@ def corr(ctx):
                 lines.append(f"gridimg {w[0]} {w[1]} {w[2]} {rats(flat(fam.basis_recip))} {ints(div)} {ints(n)}")
                 checks.append(("gridimg", dict(case, n=n), ";".join(",".join(str(int(v)) for v in im) for im in imgs)))
                 ctx.count("corr.gridimg.coupled_anisotropic=" + ("yes" if coupled_aniso(Ns, div) else "no"))
+            # interface with the C06 model (theorem irred_equals_full_with_C06_weights): its star of a grid index is the
+            # orbit under the action used here, and its K-list (points, factors) is the code's
+            stok = c06_sym_token(fam, grp_elems)
+            for _ in range(2):
+                n = tuple(rng.randrange(div[i]) for i in range(3))
+                orb = set()
+                for N in Ns:
+                    q = [sum(Fr(n[i] * N[i][j] * div[j], div[i]) for i in range(3)) for j in range(3)]
+                    orb.add(tuple(int(q[j]) % div[j] for j in range(3)))
+                c06_lines.append(f"staridx {stok} {ints(div)} {ints(n)}")
+                c06_checks.append(("staridx", dict(case, n=n), orb))
+            c06_lines.append(f"orbithyp {stok} {ints(div)}")
+            c06_checks.append(("orbithyp", case, "1"))
+            c06_lines.append(f"klist {stok} {ints(div)} 1")
+            c06_checks.append(("klist", case, list(K_list)))
             ctx.count(f"corr.irrsum.rank={rank}")
             ctx.count(f"corr.irrsum.irreducible={nirr}/{len(allp)}")
 
@@ -965,6 +1077,24 @@ def corr(ctx):
     if lines:
         ctx.sample(dict(protocol_line=lines[0][:300], model=out[0][:300]))
         ctx.sample(dict(protocol_line=lines[-1][:300], model=out[-1][:300]))
+    if c06_lines:
+        out6 = ctx.lean(c06_lines, model="C06")
+        for line, o, (kind, case, exp) in zip(c06_lines, out6, c06_checks):
+            ctx.case(signature=("C06", line), nontrivial=True)
+            if kind == "staridx":
+                got = set() if o == "_" else {tuple(int(t) for t in v.split(",")) for v in o.split(";")}
+                n_listed = 0 if o == "_" else len(o.split(";"))
+                if got != exp or n_listed != len(exp):
+                    ctx.mismatch(f"C06 model: starIdx lists {n_listed} points {sorted(got)}, the orbit under the C07 action "
+                                 f"is {sorted(exp)}", dict(case, line=line[:300]))
+            elif kind == "orbithyp":
+                if o != exp:
+                    ctx.mismatch(f"C06 model: OrbitHyp check gives {o} on a grid accepted by the code", dict(case, line=line[:300]))
+            elif kind == "klist":
+                msg = c06.cmp_klist(o, exp, False)
+                if msg:
+                    ctx.mismatch(f"C06 model K-list differs from the code's get_K_list: {msg}", dict(case, line=line[:300]))
+        ctx.count("corr.c06_interface_lines", len(c06_lines))
 
 
 def replay(ctx, case):
